@@ -110,12 +110,13 @@ class Recorder:
         self.identities = []         # (node id, id(protocol), id(provider)) at initialize
         self.own_pos = []
         self.commands = {}
+        self.tick = float(scn.get("tick", TICK))
         self.hard_cap = scn.get("hardCap", HARD_CAP)   # deliberately long runs raise it in the scenario
 
     # -- protocol side ---------------------------------------------------------------------
     def on_callback(self, proto, kind, key, pos=None):
         n = proto.provider.get_id()
-        t = to_ticks(proto.provider.current_time())
+        t = to_ticks(proto.provider.current_time(), self.tick)
         entry = ["cb", n, kind, key, t]
         if pos is not None:
             entry.append(v3bits(pos))
@@ -132,6 +133,12 @@ class Recorder:
         row = self.table.get(k)
         if row is None:
             reqs = self.behaviour.react(n, kind, key, t) if self.behaviour is not None else []
+            if pos is not None:
+                here = ["goto"] + v3bits(pos)
+                reqs = [here if q == ["gotoHere"] else
+                        (["onRefused", here, q[2]] if q[0] == "onRefused" and q[1] == ["gotoHere"] else q) for q in reqs]
+            else:
+                reqs = [q for q in reqs if q != ["gotoHere"] and not (q[0] == "onRefused" and q[1] == ["gotoHere"])]
             row = {"n": n, "cb": kind, "key": key, "t": t, "reqs": reqs}
             self.table[k] = row
         for spec in row["reqs"]:
@@ -157,7 +164,7 @@ class Recorder:
         p = proto.provider
         op = req[0]
         if op == "setTimer":
-            p.schedule_timer(req[1], req[2] / TICK)
+            p.schedule_timer(req[1], req[2] / self.tick)
         elif op == "cancelTimer":
             p.cancel_timer(req[1])
         elif op == "send":
@@ -234,7 +241,7 @@ def _hooks_for(rec, label, sampler):
         return super(holder["cls"], self).initialize()
 
     def after_simulation_step(self, iteration, timestamp):
-        rec.trace.append(["after", label, iteration, to_ticks(timestamp)])
+        rec.trace.append(["after", label, iteration, to_ticks(timestamp, rec.tick)])
         if len(rec.trace) > rec.hard_cap:
             raise Runaway(f"more than {rec.hard_cap} observations")
         if sampler:
@@ -279,7 +286,7 @@ def make_handler(rec, label, cfg, sampler):
     if label == "communication" and cfg["hasComm"]:
         cls = _leaf(_mk("RecCommunicationHandler", (CommunicationHandler,), hooks), "RecCommunicationHandler", lh)
         medium = CommunicationMedium(transmission_range=bitsf(cfg["defaultRange"]),
-                                     delay=cfg["delay"] / TICK,
+                                     delay=cfg["delay"] / rec.tick,
                                      failure_rate=bitsf(cfg["failRate"]))
         return cls(medium)
     if label == "mobility" and cfg["hasMob"]:
@@ -310,7 +317,7 @@ def build(scn, rec, sim_options=None):
     opts.update(scn.get("simOptions") or {})
     opts.update(sim_options or {})
     conf = SimulationConfiguration(
-        duration=None if cfg["duration"] is None else cfg["duration"] / TICK,
+        duration=None if cfg["duration"] is None else cfg["duration"] / rec.tick,
         max_iterations=cfg["maxIter"], **opts)
     builder = SimulationBuilder(conf)
     for i, label in enumerate(cfg["handlers"]):
@@ -342,7 +349,14 @@ def run_impl(scn, behaviour=None, sim_options=None, draw_seed=0, keep_logging=Fa
             if after_build is not None:
                 after_build()          # e.g. build (and run) another simulation before this one runs
             drive = scn["drive"]
+            for row in scn.get("prestart", []):
+                # requests through the provider after build() and before the first step
+                proto = sim.get_node(row["n"]).protocol_encapsulator.protocol
+                for req in row["reqs"]:
+                    rec.issue(proto, row["n"], req)
             if drive["mode"] == "start":
+                for _ in range(drive.get("pre", 0)):      # mixed driving: manual steps, then blocking
+                    rets.append(bool(sim.step_simulation()))
                 sim.start_simulation()
             else:
                 if drive.get("untilDone"):
@@ -387,4 +401,6 @@ def to_driver(scn, impl_result):
         d["drive"]["n"] = scn["drive"].get("n", 200000)
     if scn.get("wantPos"):
         d["wantPos"] = True
+    if scn.get("prestart"):
+        d["prestart"] = scn["prestart"]
     return d
